@@ -228,3 +228,97 @@ PROPS['C09'] = dict(
     level_note='Trusted: ASan/UBSan/libstdc++ debug mode detect what they instrument; uninitialised reads are not covered by these sanitizers (MSan unusable: no instrumented libstdc++).',
     assumptions=[SAN],
 )
+
+# ---------------------------------------------------------------- expression programs (C05, C06, C07)
+import subprocess as _subprocess, sys as _sys
+CAT_N = 8
+def cat_units(prefix, pid, qscale, tscale):
+    us = []
+    for k in range(CAT_N):
+        t = T('cat_%02d' % k, src=['harness/expr_catalog/cat_%02d.cpp' % k], deps=['harness/expr_common.h'])
+        a = ['--prefix', prefix, '--property', pid]
+        us.append(dict(target=t, quick=dict(args=a, scale=qscale), thorough=dict(args=a, scale=tscale, shards=2)))
+    return us
+
+def gen_unit(prefix, pid, n_units=16, per=6, scale=2.0):
+    """thorough only: fresh expression programs drawn from VERIF_SEED, compiled in parallel."""
+    def run(u, tier, res, env):
+        if tier != 'thorough':
+            return
+        HERE, BUILD, REPLAYS, SEED = env['HERE'], env['BUILD'], env['REPLAYS'], env['SEED']
+        gdir = _os.path.join(BUILD, 'gen-s%d' % SEED)
+        r = _subprocess.run([_sys.executable, _os.path.join(HERE, 'harness', 'exprgen.py'), str(SEED), str(n_units), str(per), gdir], capture_output=True, text=True)
+        if r.returncode != 0:
+            res.notes.append('exprgen failed: ' + r.stderr[-500:])
+            return
+        targets = [T('gen_s%d_%02d' % (SEED, k), src=[_os.path.join(gdir, 'gen_s%d_%02d.cpp' % (SEED, k))], deps=['harness/expr_common.h']) for k in range(n_units)]
+        from concurrent.futures import ThreadPoolExecutor
+        with ThreadPoolExecutor(max_workers=env['JOBS']) as ex:
+            built = list(ex.map(env['build'], targets))
+        import importlib
+        chk = _sys.modules['__main__']
+        before = len(res.candidates)
+        for t, (exe, bl) in zip(targets, built):
+            if exe is None:
+                res.notes.append('BUILD-FAILED %s log=%s' % (t['name'], bl))
+                res.extra.setdefault('build_failures', []).append(bl)
+        with ThreadPoolExecutor(max_workers=env['JOBS']) as ex:
+            list(ex.map(lambda t: chk.run_unit(dict(target=t, thorough=dict(args=['--prefix', prefix, '--property', pid], scale=scale)), 'thorough', res, 'gen-%s' % t['name']),
+                        [t for t, (exe, bl) in zip(targets, built) if exe]))
+        for cand in res.candidates[before:]:
+            path = cand[1]
+            for t in targets:
+                if _os.path.exists(path) and ('target: ' + t['name'] + '\n') in open(path).read():
+                    dst = _os.path.join(REPLAYS, t['name'] + '.cpp')
+                    _shutil.copy(t['src'][0], dst)
+                    with open(path, 'a') as f:
+                        f.write('source: %s\n' % dst)
+        res.extra['generated_programs'] = dict(seed=SEED, translation_units=n_units, expression_types=n_units * per)
+    def replay(path, env):
+        txt = open(path, errors='replace').read()
+        m = _re.search(r'^source: (.*)$', txt, _re.M)
+        tn = _re.search(r'^target: (.*)$', txt, _re.M)
+        if not m or not tn or not _os.path.exists(m.group(1)):
+            return False
+        exe, bl = env['build'](T(tn.group(1), src=[m.group(1)], deps=['harness/expr_common.h']))
+        if exe is None:
+            return False
+        rc, so, se, _ = env['run_proc']([exe, '--prefix', prefix, '--property', pid, '--replay', path], timeout=600)
+        print(so[-2000:])
+        return rc not in (0, 2)
+    return dict(custom=run, replay=replay)
+import re as _re
+
+EXPR_RULE = ('expression programs: operator expression TYPES are sampled by generating C++ source from the grammar E ::= I | X<n> | Dx<n> | SplineOperator{f_k} | E*E | E+E | E-E | c*E | E*c | E/c | E+c | c+E | E-c | c-E | -E with c a T-valued or an int literal '
+             '(depth <= 5, output order <= 6, rvalue-built trees only - the form the library compiles and every caller uses). Quick: the committed catalogue of 48 programs (16 fixed members: scalar product pair, commutator, both associativity forms, the four example Hamiltonians, int division, every scalar production; 32 generated covering every production with both scalar types); '
+             'thorough adds 96 fresh expression types from VERIF_SEED. Per expression: random grids (2..9 points, incl. far from origin / non-uniform), operand orders 0..3, factor splines of orders 0,1,2 placed relative to the operand by constructed class '
+             '(covers, strictly inside, ENDS inside, starts inside, touching, gap, interval-free). Library instantiated with the exact scalar Q. ')
+PROPS['C05'] = dict(
+    units=cat_units('apply', 'C05', 1.0, 6.0) + [gen_unit('apply', 'C05')],
+    rule=EXPR_RULE + 'Oracle (C05): AST interpreter over the reference model implementing exactly the equations of the statement; equality on every grid interval. Non-trivial: >= 2 internal nodes and operand with >= 1 interval. Distinct = distinct case text; counters per production, factor placement and operand order.',
+    technique='generated C++ expression programs (grammar-based program generation) driven by rapidcheck inputs, compared with an AST interpreter over an exact reference model',
+    engine='exprgen.py + rapidcheck',
+    level_text='Exact generated-input search over sampled expression types and generated operands; every production, scalar type and factor placement class is covered and counted. Sampling of an infinite type and input space, not proof.',
+    level_note='Trusted: GMP, ref.h, the AST interpreter (13 equations). Expression trees with lvalue operands do not compile and are outside the domain (DESIGN 6.8).',
+    assumptions=[EXACT, SAN],
+)
+PROPS['C06'] = dict(
+    units=cat_units('bilinear', 'C06', 1.0, 6.0) + [gen_unit('bilinear', 'C06')],
+    rule=EXPR_RULE + 'Oracle (C06): operator pairs (expression i with partner pi(i); identity with itself) x spline pairs by constructed placement class x four (order_a, order_b) combinations per pair; expected value = exact integral of the product of the two interpreted functions (antiderivative in Q); '
+         'zero without common interval; B{O1,O2}(a,b) == B{O2,O1}(b,a); linearity with generated rational alpha, beta and a second operand; ScalarProduct == B{I,I}. Non-trivial: >= 1 common interval and (non-identical windows or different orders or non-identity operators). Kernel parity (odd/even sizes) counted.',
+    technique='generated C++ expression programs + rapidcheck inputs; oracle = exact antiderivative of the product polynomial, metamorphic relations (swap, bilinearity)',
+    engine='exprgen.py + rapidcheck',
+    level_text='Exact generated-input search over sampled operator pairs and generated spline pairs with all placements; sampling, not proof.',
+    level_note='Trusted: GMP, ref.h, AST interpreter.',
+    assumptions=[EXACT, SAN],
+)
+PROPS['C07'] = dict(
+    units=cat_units('linform', 'C07', 1.0, 6.0) + [gen_unit('linform', 'C07')],
+    rule=EXPR_RULE + 'Oracle (C07): LinearForm{O}(a) == exact integral of the interpreted function over a\'s support (zero for interval-free a), operator() == evaluate(), == LinearForm{}(O a); and for operator pairs and spline pairs of all placements B{O1,O2}(a,b) == LinearForm{}((O1 a)*(O2 b)) == exact integral. '
+         'Non-trivial: >= 1 interval and kernel size >= 2 (linear form); >= 1 common interval (product identity). Both kernel parities counted.',
+    technique='generated C++ expression programs + rapidcheck inputs; oracle = exact integral from the reference model and agreement with the bilinear form',
+    engine='exprgen.py + rapidcheck',
+    level_text='Exact generated-input search; sampling, not proof.',
+    level_note='Trusted: GMP, ref.h, AST interpreter.',
+    assumptions=[EXACT, SAN],
+)
